@@ -120,6 +120,12 @@ def build(name):
                 "routing": {"A": [[0.3]], "B": [[0.0]]},
             }
         return ciw.create_network_from_dictionary(_PARAMS)      # the SAME dictionary every time
+    if name == "baulking":
+        return ciw.create_network(
+            arrival_distributions=[D.Exponential(4.0)],
+            service_distributions=[D.Exponential(1.5)],
+            number_of_servers=[1],
+            baulking_functions=[lambda n, Q=None, next_ind=None, next_node=None: n / (n + 1.0)])
     if name in ("exact_customers", "exact_low"):
         return ciw.create_network(
             arrival_distributions=[D.Exponential(3.0)],
@@ -132,7 +138,7 @@ _PARAMS = None
 EXACT = {"exact_customers": 10, "exact_low": 4}      # exact-mode configurations (decimal context is process-global)
 BY_CUSTOMERS = {"exact_customers": 25}               # run with simulate_until_max_customers(n)
 
-CONFIGS = ["sequential", "cycle", "process", "schedules", "reneging", "intervals", "continuous", "empirical", "exact_customers", "exact_low", "from_dict", "routers", "slotted_preempt", "preempt_sched"]
+CONFIGS = ["sequential", "cycle", "process", "schedules", "reneging", "intervals", "continuous", "empirical", "exact_customers", "exact_low", "from_dict", "routers", "slotted_preempt", "preempt_sched", "baulking"]
 DETERMINISTIC = ["det-cycle", "det-sequential", "det-schedule"]
 
 
@@ -142,20 +148,20 @@ def build_det(name):
     R = ciw.routing
     if name == "det-cycle":
         return ciw.create_network(
-            arrival_distributions=[D.Deterministic(0.7), None, None],
-            service_distributions=[D.Deterministic(0.2), D.Deterministic(0.5), D.Deterministic(0.3)],
+            arrival_distributions=[D.Deterministic(0.71), None, None],
+            service_distributions=[D.Deterministic(0.23), D.Deterministic(0.53), D.Deterministic(0.31)],
             number_of_servers=[1, 1, 1],
             routing=R.NetworkRouting(routers=[R.Cycle(cycle=[2, 3, -1]), R.Leave(), R.Direct(to=2)]))
     if name == "det-sequential":
         return ciw.create_network(
-            arrival_distributions=[D.Sequential([0.4, 0.7, 0.3, 1.1])],
-            service_distributions=[D.Sequential([0.9, 0.2, 0.6])],
+            arrival_distributions=[D.Sequential([0.41, 0.73, 0.29, 1.13])],
+            service_distributions=[D.Sequential([0.97, 0.19, 0.61])],
             number_of_servers=[1],
-            reneging_time_distributions=[D.Sequential([0.5, 0.25, 0.75])])
+            reneging_time_distributions=[D.Sequential([0.53, 0.257, 0.751])])
     if name == "det-schedule":
         return ciw.create_network(
-            arrival_distributions=[D.Deterministic(0.45)],
-            service_distributions=[D.Deterministic(0.8)],
+            arrival_distributions=[D.Deterministic(0.47)],
+            service_distributions=[D.Deterministic(0.83)],
             number_of_servers=[ciw.Schedule(numbers_of_servers=[1, 0, 2], shift_end_dates=[1.0, 1.5, 2.5], preemption="resume")])
     raise ValueError(name)
 
@@ -288,14 +294,20 @@ def _run_history(args):
 
 def interleavings(args):
     """two live simulations on ONE Network of a deterministic configuration, every interleaving of their steps"""
-    name, order = args
+    name, order = args[0], args[1]
+    separate = len(args) > 2 and args[2] == "separate"
     cuts = [T / 3, 2 * T / 3, T]
     solo = new_sim(build_det(name))
     for c in cuts:
         solo.simulate_until_max_time(c)
     ref = digest(solo)
+    stamps = [t for t, _ in solo.statetracker.history]
+    if len(set(stamps)) != len(stamps):
+        # simultaneous events are resolved with the process-wide generator: not a statement about shared objects
+        raise RuntimeError("deterministic configuration %s is not tie-free: %r" % (name, stamps))
     N = build_det(name)
-    sims = [new_sim(N), new_sim(N)]
+    # "separate": each simulation has its OWN freshly built Network (nothing may be shared then)
+    sims = [new_sim(N), new_sim(build_det(name) if separate else N)]
     pos = [0, 0]
     out = []
     try:
@@ -303,12 +315,13 @@ def interleavings(args):
             sims[who].simulate_until_max_time(cuts[pos[who]])
             pos[who] += 1
     except Exception as e:
-        out.append(("interleaved_simulations_on_one_network_crash", {"config": name, "order": list(order), "error": "%s: %s" % (type(e).__name__, str(e)[:120])}))
+        out.append(("interleaved_simulations_on_%s_crash" % ("separate_networks" if separate else "one_network"),
+                    {"config": name, "order": list(order), "error": "%s: %s" % (type(e).__name__, str(e)[:120])}))
         return out, 3, ref
     for k, Q in enumerate(sims):
         d = digest(Q)
         if d != ref:
-            out.append(("interleaved_simulations_on_one_network_differ_from_solo_run",
+            out.append(("interleaved_simulations_on_%s_differ_from_solo_run" % ("separate_networks" if separate else "one_network"),
                         {"config": name, "order": list(order), "simulation": k, "digest": d, "reference": ref}))
     return out, 3, ref
 
@@ -361,6 +374,7 @@ class Spec(object):
                                 tasks.append((c, other, ops, s, mode, refs[(c, s)]))
             res = pool.map(run_history, tasks, chunksize=16)
             itasks = [(n, order) for n in DETERMINISTIC for order in set(itertools.permutations([0, 0, 0, 1, 1, 1]))]
+            itasks += [(n, order, "separate") for n in DETERMINISTIC for order in set(itertools.permutations([0, 0, 0, 1, 1, 1]))]
             ires = pool.map(interleavings, itasks, chunksize=4)
         viol, known = [], {}
         nsims = 0
@@ -380,13 +394,13 @@ class Spec(object):
             print("KNOWN-FINDING: property=C15 %s (%d histories)" % (k["what"], k["n"]))
         printed = 0
         seen = set()
-        for task, clause, detail in sorted(viol, key=lambda x: (x[1], len(x[0][2]) if len(x[0]) > 2 else 0, repr(x[0]))):
+        for task, clause, detail in sorted(viol, key=lambda x: (x[1], len(x[0][2]) if len(x[0]) == 6 else 0, repr(x[0]))):
             key = (clause, detail.get("config"), detail.get("mode"))
             if key in seen:
                 continue
             seen.add(key)
             os.makedirs(os.path.join(evidence.OUT, "replays", "C15"), exist_ok=True)
-            body = {"property": "C15", "clause": clause, "detail": detail, "kind": "history" if len(task) > 2 else "interleaving", "args": list(task)}
+            body = {"property": "C15", "clause": clause, "detail": detail, "kind": "history" if len(task) == 6 else "interleaving", "args": list(task)}
             dg = hashlib.sha1(json.dumps(body, sort_keys=True, default=str).encode()).hexdigest()[:12]
             path = os.path.join(evidence.OUT, "replays", "C15", "%s_%s.json" % (clause, dg))
             json.dump(body, open(path, "w"), indent=1, default=str)
